@@ -296,7 +296,10 @@ Inductive expr : Type :=
 | EEq (n : nat) (e : expr) (l : obj)        (* e == literal *)
 | ENot (n : nat) (e : expr)
 | EAnd (n : nat) (a b : expr)
-| EOr (n : nat) (a b : expr).
+| EOr (n : nat) (a b : expr)
+| EAdd (n : nat) (a b : expr)               (* a + b on ints (bool counts as int); anything else raises *)
+| ECallId (n : nat) (e : expr)              (* call of a generic identity function  def f(x: T) -> T *)
+| ECallInt (n : nat) (e : expr).            (* call of an annotated function  def f(x: int) -> int  (returns x + 1) *)
 
 (* the constraint a condition expression carries (extract_constraints of its value) *)
 Definition var_of (e : expr) : option nat :=
@@ -413,6 +416,33 @@ Fixpoint eval (r : env) (e : expr) : trace * option obj :=
             end
       | (t, None) => (t, None)
       end
+  | EAdd n a b =>
+      match eval r a with
+      | (t, Some oa) =>
+          match eval r b with
+          | (t2, Some ob) =>
+              match num_of oa, num_of ob with
+              | Some x, Some y => ret n (t ++ t2) (OInt (x + y))
+              | _, _ => (t ++ t2, None)
+              end
+          | (t2, None) => (t ++ t2, None)
+          end
+      | (t, None) => (t, None)
+      end
+  | ECallId n e' =>
+      match eval r e' with
+      | (t, Some o) => ret n t o
+      | (t, None) => (t, None)
+      end
+  | ECallInt n e' =>
+      match eval r e' with
+      | (t, Some o) =>
+          match num_of o with
+          | Some x => ret n t (OInt (x + 1))
+          | None => (t, None)
+          end
+      | (t, None) => (t, None)
+      end
   end.
 
 (* --- abstract interpretation of expressions: annotations (label -> inferred value) and the value;
@@ -440,6 +470,31 @@ Definition seq_getitem (v : val) (i : Z) : option val :=
              end
          end) ws
   | _ => one v
+  end.
+
+(* every member is an int or bool value (what int.__add__ / an `int` parameter accept) *)
+Definition intlike1 (v : val) : bool :=
+  match v with
+  | VKnown (OInt _) | VKnown (OBool _) => true
+  | VTyped CInt | VTyped CBool => true
+  | _ => false
+  end.
+
+Definition intlike (v : val) : bool :=
+  match flat v with
+  | [] => false
+  | l => forallb intlike1 l
+  end.
+
+(* int + int: literal arithmetic on two known values, `int` otherwise *)
+Definition add_val (a b : val) : option val :=
+  match a, b with
+  | VKnown oa, VKnown ob =>
+      match num_of oa, num_of ob with
+      | Some x, Some y => Some (VKnown (OInt (x + y)))
+      | _, _ => None
+      end
+  | _, _ => if intlike a && intlike b then Some (VTyped CInt) else None
   end.
 
 Fixpoint infer (s : aenv) (e : expr) : option (annots * val) :=
@@ -497,6 +552,25 @@ Fixpoint infer (s : aenv) (e : expr) : option (annots * val) :=
           | Some (ab, vb) => ret n (aa ++ ab) (unite (narrow_val KTruthy true va) vb)
           | None => None
           end
+      | None => None
+      end
+  | EAdd n a b =>
+      match infer s a, infer s b with
+      | Some (aa, va), Some (ab, vb) =>
+          match add_val va vb with
+          | Some w => ret n (aa ++ ab) w
+          | None => None
+          end
+      | _, _ => None
+      end
+  | ECallId n e' =>
+      match infer s e' with
+      | Some (a, v) => ret n a v
+      | None => None
+      end
+  | ECallInt n e' =>
+      match infer s e' with
+      | Some (a, v) => if intlike v then ret n a (VTyped CInt) else None
       | None => None
       end
   end.
